@@ -1,10 +1,56 @@
-(* TmplNq.v — C10: the non-quiet path of findTemplate (scan with run-time priority, same-text
-   skip, conflict array) against the quiet path. *)
+(* TmplNq.v — C10: the conflict-reporting ("non-quiet") path of findTemplate (scan by table
+   priority, same-template skip, conflict array) against the quiet path. *)
 From Coq Require Import List Bool ZArith NArith Lia Sorting.Sorted.
 From Coq Require Import ZifyBool ZifyNat ZifyN.
 Require Import XV.TmplDefs XV.TmplModel XV.TmplSelect.
 Import ListNotations.
 Local Open Scope Z_scope.
+
+(* the decidable equalities are equalities *)
+Lemma score_eqb_eq : forall a b, score_eqb a b = true -> a = b.
+Proof. destruct a, b; cbn; intro H; try discriminate; reflexivity. Qed.
+
+Lemma tname_eqb_eq : forall a b, tname_eqb a b = true -> a = b.
+Proof.
+  destruct a, b; cbn; intro H; try discriminate; try reflexivity.
+  apply N.eqb_eq in H. subst. reflexivity.
+Qed.
+
+Lemma ttype_eqb_eq : forall a b, ttype_eqb a b = true -> a = b.
+Proof. destruct a, b; cbn; intro H; try discriminate; reflexivity. Qed.
+
+Lemma alt_eqb_eq : forall a b, alt_eqb a b = true -> a = b.
+Proof.
+  intros [p1 [n1 t1] s1] [p2 [n2 t2] s2]. unfold alt_eqb. cbn. intro H.
+  apply andb_true_iff in H. destruct H as [H Hs].
+  apply andb_true_iff in H. destruct H as [H Ht].
+  apply andb_true_iff in H. destruct H as [Hp Hn].
+  apply N.eqb_eq in Hp. apply tname_eqb_eq in Hn. apply ttype_eqb_eq in Ht. apply score_eqb_eq in Hs.
+  subst. reflexivity.
+Qed.
+
+Lemma alts_eqb_eq : forall l1 l2, alts_eqb l1 l2 = true -> l1 = l2.
+Proof.
+  induction l1 as [|a r IH]; destruct l2 as [|b r2]; cbn; intro H; try discriminate; [reflexivity|].
+  apply andb_true_iff in H. destruct H as [Ha Hr].
+  apply alt_eqb_eq in Ha. apply IH in Hr. subst. reflexivity.
+Qed.
+
+Lemma mode_eqb_eq : forall a b, mode_eqb a b = true -> a = b.
+Proof. destruct a, b; cbn; intro H; try discriminate; try reflexivity. apply N.eqb_eq in H. subst. reflexivity. Qed.
+
+Lemma opt_z_eqb_eq : forall a b, opt_z_eqb a b = true -> a = b.
+Proof. destruct a, b; cbn; intro H; try discriminate; try reflexivity. f_equal; lia. Qed.
+
+Lemma template_eqb_eq : forall t1 t2, template_eqb t1 t2 = true -> t1 = t2.
+Proof.
+  intros [i1 m1 p1 a1] [i2 m2 p2 a2]. unfold template_eqb. cbn. intro H.
+  apply andb_true_iff in H. destruct H as [H Ha].
+  apply andb_true_iff in H. destruct H as [H Hp].
+  apply andb_true_iff in H. destruct H as [Hi Hm].
+  apply N.eqb_eq in Hi. apply mode_eqb_eq in Hm. apply opt_z_eqb_eq in Hp. apply alts_eqb_eq in Ha.
+  subst. reflexivity.
+Qed.
 
 Section Nq.
   Variable node : Type.
@@ -43,13 +89,12 @@ Section Nq.
     - destruct (IH f H). split; [right; assumption | assumption].
   Qed.
 
-  (* the guards, for one list and one node *)
-  Definition nq_guard (n : node) (l : list entry) : Prop :=
-    (forall e, In e l -> uniform_template (e_tmpl e) = true /\ runtime_uniform_template (e_tmpl e) = true /\
-                         In (e_alt e) (t_alts (e_tmpl e))) /\
-    (forall e1 e2, In e1 l -> In e2 l ->
-       t_text (e_tmpl e1) = t_text (e_tmpl e2) -> t_prio (e_tmpl e1) = t_prio (e_tmpl e2) ->
-       tmatch (e_tmpl e1) n = tmatch (e_tmpl e2) n).
+  Lemma first_ok_none : forall mode n l p, first_ok mode n l = None -> In p l -> ok mode n p = false.
+  Proof.
+    induction l as [|x r IH]; intros p Ef Hp; [destruct Hp|].
+    cbn [first_ok] in Ef. destruct (ok mode n x) eqn:Ex; [discriminate|].
+    destruct Hp as [<-|Hr]; [exact Ex | apply IH; assumption].
+  Qed.
 
   Definition nq_inv (mode : option N) (n : node) (st : nq_state) (pre : list entry) : Prop :=
     match first_ok mode n pre with
@@ -57,22 +102,19 @@ Section Nq.
     | Some f => exists b, nq_best st = Some (b, prio_or_default f) /\
                           match nq_conf st with [] => b = f | c :: _ => c = f end
     end /\
-    (forall p, nq_prev st = Some p -> In p pre /\ mode_eqb mode (t_mode (e_tmpl p)) = true).
-
-  Lemma opt_z_eqb_eq : forall a b, opt_z_eqb a b = true -> a = b.
-  Proof. destruct a, b; cbn; intro H; try discriminate; try reflexivity. f_equal; lia. Qed.
+    (forall p, nq_prev st = Some p -> In p pre).
 
   Definition skip_test (st : nq_state) (e : entry) : bool :=
     match nq_prev st with
-    | Some p => (t_text (e_tmpl p) =? t_text (e_tmpl e))%N && opt_z_eqb (t_prio (e_tmpl p)) (t_prio (e_tmpl e))
+    | Some p => template_eqb (e_tmpl p) (e_tmpl e)
     | None => false
     end.
 
   Definition nq_exam (n : node) (st : nq_state) (e : entry) : nq_state :=
     match first_matching node pmatch (t_alts (e_tmpl e)) n with
     | None => {| nq_best := nq_best st; nq_conf := nq_conf st; nq_prev := Some e |}
-    | Some a =>
-        let pr := match t_prio (e_tmpl e) with Some p => p | None => score_value (a_rscore a) end in
+    | Some _ =>
+        let pr := prio_or_default e in
         match nq_best st with
         | None => {| nq_best := Some (e, pr); nq_conf := []; nq_prev := Some e |}
         | Some (b, pb) =>
@@ -94,27 +136,17 @@ Section Nq.
   Lemma nq_exam_inv : forall mode n st pre e,
     nq_inv mode n st pre ->
     (forall x, In x pre -> ge_entry x e) ->
-    nq_guard n (pre ++ [e]) ->
     mode_eqb mode (t_mode (e_tmpl e)) = true ->
     nq_inv mode n (nq_exam n st e) (pre ++ [e]).
   Proof.
-    intros mode n st pre e [Hb Hp] Hge [Gu Gt] Em. unfold nq_inv. rewrite first_ok_app.
+    intros mode n st pre e [Hb Hp] Hge Em. unfold nq_inv. rewrite first_ok_app.
     assert (He : In e (pre ++ [e])) by (apply in_app_iff; right; left; reflexivity).
     unfold nq_exam, TmplSelect.ok. rewrite Em. cbn [andb]. unfold TmplDefs.tmatch.
     destruct (first_matching node pmatch (t_alts (e_tmpl e)) n) as [a|] eqn:Ea.
-    2:{ (* examined, no match *)
-      cbn [nq_best nq_conf nq_prev]. split.
+    2:{ cbn [nq_best nq_conf nq_prev]. split.
       - destruct (first_ok mode n pre); exact Hb.
-      - intros p Hpp. inversion Hpp; subst. split; [exact He | exact Em]. }
-    (* examined, matches *)
-    destruct (first_matching_some node pmatch _ _ _ Ea) as [Hain _].
-    destruct (Gu e He) as [Hu [Hru Halt]].
-    assert (Hpr : match t_prio (e_tmpl e) with Some p => p | None => score_value (a_rscore a) end = prio_or_default e).
-    { pose proof (uniform_prio (e_tmpl e) a (e_alt e) Hu Hain Halt) as Hup.
-      unfold prio_of in Hup. unfold prio_or_default. unfold runtime_uniform_template in Hru.
-      destruct (t_prio (e_tmpl e)); [reflexivity|].
-      rewrite forallb_forall in Hru. specialize (Hru a Hain). lia. }
-    cbv zeta. rewrite Hpr.
+      - intros p Hpp. inversion Hpp; subst. exact He. }
+    cbv zeta.
     destruct (first_ok mode n pre) as [f|] eqn:Ef.
     - destruct Hb as [b [Hbest Hconf]]. rewrite Hbest.
       destruct (first_ok_in _ _ _ _ Ef) as [Hfin _].
@@ -126,80 +158,65 @@ Section Nq.
           unfold conf_add_if_absent. destruct (nq_conf st) as [|c r] eqn:Ec.
           -- cbn. subst b. reflexivity.
           -- destruct (existsb (fun x => (e_pos x =? e_pos b)%N) (c :: r)); cbn; exact Hconf.
-        * intros p Hpp. inversion Hpp; subst. split; [exact He | exact Em].
+        * intros p Hpp. inversion Hpp; subst. exact He.
       + cbn [nq_best nq_conf nq_prev]. split.
         * exists b. split; [reflexivity | exact Hconf].
-        * intros p Hpp. inversion Hpp; subst. split; [exact He | exact Em].
+        * intros p Hpp. inversion Hpp; subst. exact He.
     - destruct Hb as [Hbest Hconf]. rewrite Hbest. cbn [nq_best nq_conf nq_prev]. split.
       + exists e. split; reflexivity.
-      + intros p Hpp. inversion Hpp; subst. split; [exact He | exact Em].
-  Qed.
-
-  Lemma first_ok_none : forall mode n l p, first_ok mode n l = None -> In p l -> ok mode n p = false.
-  Proof.
-    induction l as [|x r IH]; intros p Ef Hp; [destruct Hp|].
-    cbn [first_ok] in Ef. destruct (ok mode n x) eqn:Ex; [discriminate|].
-    destruct Hp as [<-|Hr]; [exact Ex | apply IH; assumption].
+      + intros p Hpp. inversion Hpp; subst. exact He.
   Qed.
 
   Lemma nq_step_inv : forall mode n st pre e,
     nq_inv mode n st pre ->
     (forall x, In x pre -> ge_entry x e) ->
-    nq_guard n (pre ++ [e]) ->
     nq_inv mode n (nq_step mode n st e) (pre ++ [e]).
   Proof.
-    intros mode n st pre e Hi Hge Hg. rewrite nq_step_unfold.
+    intros mode n st pre e Hi Hge. rewrite nq_step_unfold.
     assert (Hin : forall x, In x pre -> In x (pre ++ [e])) by (intros; apply in_app_iff; left; assumption).
-    assert (He : In e (pre ++ [e])) by (apply in_app_iff; right; left; reflexivity).
     destruct (mode_eqb mode (t_mode (e_tmpl e))) eqn:Em; cbn [negb].
-    2:{ (* other mode *)
-      destruct Hi as [Hb Hp]. unfold nq_inv. rewrite first_ok_app.
+    2:{ destruct Hi as [Hb Hp]. unfold nq_inv. rewrite first_ok_app.
       assert (Hok : ok mode n e = false) by (unfold TmplSelect.ok; rewrite Em; reflexivity).
       rewrite Hok. split.
       - destruct (first_ok mode n pre); exact Hb.
-      - intros p Hpp. destruct (Hp p Hpp). split; auto. }
+      - intros p Hpp. auto. }
     destruct (skip_test st e) eqn:Es; [|apply nq_exam_inv; assumption].
-    (* skipped: the previously examined entry has the same pattern text and priority *)
-    destruct Hi as [Hb Hp]. destruct Hg as [Gu Gt]. unfold nq_inv. rewrite first_ok_app.
+    (* skipped: the previously examined entry belongs to the same template *)
+    destruct Hi as [Hb Hp]. unfold nq_inv. rewrite first_ok_app.
     unfold skip_test in Es. destruct (nq_prev st) as [p|] eqn:Ep; [|discriminate].
-    apply andb_true_iff in Es. destruct Es as [Et Epr].
-    apply N.eqb_eq in Et. apply opt_z_eqb_eq in Epr.
-    destruct (Hp p eq_refl) as [Hpin Hpm].
+    apply template_eqb_eq in Es.
+    pose proof (Hp p eq_refl) as Hpin.
     split.
     - destruct (first_ok mode n pre) eqn:Ef; [exact Hb|].
       pose proof (first_ok_none _ _ _ _ Ef Hpin) as Hokp.
-      unfold TmplSelect.ok in Hokp |- *. rewrite Hpm in Hokp. rewrite Em. cbn [andb] in *.
-      rewrite <- (Gt p e (Hin p Hpin) He Et Epr). rewrite Hokp. exact Hb.
-    - intros q Hq. destruct (Hp q Hq). split; auto.
+      unfold TmplSelect.ok in Hokp |- *. rewrite Es in Hokp. rewrite Hokp. exact Hb.
+    - intros q Hq. auto.
   Qed.
 
   Lemma nq_fold_inv : forall mode n l pre st,
-    nq_inv mode n st pre -> StronglySorted ge_entry (pre ++ l) -> nq_guard n (pre ++ l) ->
+    nq_inv mode n st pre -> StronglySorted ge_entry (pre ++ l) ->
     nq_inv mode n (fold_left (nq_step mode n) l st) (pre ++ l).
   Proof.
-    induction l as [|e r IH]; intros pre st Hi Hs Hg; cbn [fold_left].
+    induction l as [|e r IH]; intros pre st Hi Hs; cbn [fold_left].
     - rewrite app_nil_r. exact Hi.
     - replace (pre ++ e :: r) with ((pre ++ [e]) ++ r) in * by (rewrite <- app_assoc; reflexivity).
-      apply IH; [|exact Hs | exact Hg].
-      apply nq_step_inv; [exact Hi | |].
-      + intros x Hx. clear - Hs Hx.
-        induction pre as [|y q IHq]; [destruct Hx|].
-        cbn [app] in Hs. inversion Hs as [|? ? Hq Hall]; subst.
-        destruct Hx as [->|Hx]; [|apply IHq; assumption].
-        rewrite Forall_forall in Hall. apply Hall. rewrite <- app_assoc. apply in_app_iff. right. apply in_app_iff. left. left. reflexivity.
-      + destruct Hg as [G1 G2]. split.
-        * intros x Hx. apply G1. apply in_app_iff. left. exact Hx.
-        * intros x y Hx Hy. apply G2; apply in_app_iff; left; assumption.
+      apply IH; [|exact Hs].
+      apply nq_step_inv; [exact Hi|].
+      intros x Hx. clear - Hs Hx.
+      induction pre as [|y q IHq]; [destruct Hx|].
+      cbn [app] in Hs. inversion Hs as [|? ? Hq Hall]; subst.
+      destruct Hx as [->|Hx]; [|apply IHq; assumption].
+      rewrite Forall_forall in Hall. apply Hall. rewrite <- app_assoc. apply in_app_iff. right. apply in_app_iff. left. left. reflexivity.
   Qed.
 
-  (* on a sorted list, under the guards, the non-quiet scan returns what the quiet scan returns *)
+  (* on a sorted list the conflict-reporting scan returns what the quiet scan returns *)
   Lemma nq_eq_quiet_list : forall l mode n,
-    StronglySorted ge_entry l -> nq_guard n l ->
+    StronglySorted ge_entry l ->
     find_in_list_nq node pmatch l mode n = find_in_list node pmatch l mode n.
   Proof.
-    intros l mode n Hs Hg. rewrite find_in_list_first_ok. unfold TmplDefs.find_in_list_nq.
+    intros l mode n Hs. rewrite find_in_list_first_ok. unfold TmplDefs.find_in_list_nq.
     pose proof (nq_fold_inv mode n l [] {| nq_best := None; nq_conf := []; nq_prev := None |}) as H.
-    cbn [app] in H. destruct H as [H _]; [|exact Hs | exact Hg|].
+    cbn [app] in H. destruct H as [H _]; [|exact Hs|].
     - split; [cbn; split; reflexivity | intros p Hp; discriminate].
     - destruct (first_ok mode n l) as [f|].
       + destruct H as [b [Hb Hc]]. rewrite Hb.
